@@ -79,6 +79,23 @@ var pinnedCases = []pinnedCase{
 	{"C16", "tonumber-0x-with-base-16", `return tonumber("0x10",16), tonumber("ff",16), tonumber("0x",16)`, "16|255|nil", nil},
 	{"C02", "select-count-marker", `return select("#x",1,2)`, "2", nil},
 	{"C20", "not-found-message-format", `package.path="./?.lua" local ok,msg=pcall(require,"zzz") return ok,(msg:match("module.*$"):gsub("\n\t",";"))`, "false|module 'zzz' not found:;no field package.preload['zzz'];no file './zzz.lua'", nil},
+	// siblings of repaired inputs (round 6: follow-up edits that re-break a fix for a neighbouring input)
+	{"C02", "unpack-short-range-at-high-indices", `local t = {} t[6001] = "x" local function n(...) return select("#", ...) end return n(unpack(t, 6000, 6002)), (select(2, unpack(t, 6000, 6002))), n(unpack(t, 100000, 100001)), n(unpack(t, 2^31, 2^31 + 3)), n(unpack(t, -5, -3)), n(unpack(t, 7, 6))`, "3|x|2|4|3|0", nil},
+	{"C03", "break-after-label-in-a-nested-do-block", "local f\nfor i = 1, 1 do\n local v = 10\n do\n  ::top::\n  if f then break end\n  f = function() v = v + 1 return v end\n  goto top\n end\nend\nlocal a, b, c, d, e = 100, 200, 300, 400, 500\nreturn f(), f(), e", "11|12|500", nil},
+	{"C03", "break-after-label-in-a-nested-if-block", "local f\nlocal n = 0\nwhile true do\n local v = 20\n if n == 0 then\n  ::again::\n  if f then break end\n  f = function() v = v + 1 return v end\n  goto again\n end\nend\nlocal a, b, c, d, e = 100, 200, 300, 400, 500\nreturn f(), f(), e", "21|22|500", nil},
+	{"C03", "break-after-label-two-blocks-deep", "local f\nrepeat\n local v = 30\n do do\n  ::top::\n  if f then break end\n  f = function() v = v + 1 return v end\n  goto top\n end end\nuntil true\nlocal a, b, c, d, e = 100, 200, 300, 400, 500\nreturn f(), f(), e", "31|32|500", nil},
+	{"C04", "string-metatable-arithmetic-handler", `local smt = getmetatable("") local T = setmetatable({}, {__add = function() return "T" end, __concat = function() return "Tc" end}) smt.__add = function(a, b) return "S" end local r = {pcall(function() return "10" + {}, "10" + T, T + "10", "abc" + 1, 1 + "abc", "10" + 1, "0x10" + "1" end)} smt.__add = nil return r[1], r[2], r[3], r[4], r[5], r[6], r[7], r[8]`, "true|S|S|T|S|S|11|17", nil},
+	{"C16", "tonumber-wide-negative-integer-with-base", `return tonumber("-10000000000000000", 16) == -2^64, tonumber("-0x10000000000000000", 16) == nil or tonumber("-0x10000000000000000", 16) == -2^64, tonumber("-ffffffffffffffffff", 16) == -2^72, tonumber("  -10000000000000000  ", 16) == -2^64, tonumber("-1" .. ("0"):rep(70), 2) == -2^70`, "true|true|true|true|true", nil},
+	{"C12", "more-results-than-fit-into-the-resumer-leave-a-dead-coroutine", `local t = {} for i = 1, 4000 do t[i] = i end
+local co
+local function deep(n) local a1, a2, a3, a4, a5, a6, a7, a8, a9, a10 = 1, 2, 3, 4, 5, 6, 7, 8, 9, 10 if n == 0 then return pcall(function() return select("#", coroutine.resume(co)) end) end local r1, r2 = deep(n - 1) return r1, r2, a1 end
+local caught
+for depth = 50, 230, 10 do co = coroutine.create(function() return unpack(t) end) local ok, e = deep(depth) if not ok then caught = tostring(e):match("registry overflow") break end end
+local s1 = coroutine.status(co)
+local ok2, m2 = coroutine.resume(co, "A")
+local w = coroutine.wrap(function() return unpack(t) end)
+return caught, s1, ok2, type(m2), coroutine.status(co)`, "registry overflow|dead|false|string|dead", nil},
+	{"C14", "set-with-escaped-punctuation-before-a-dash", `local function m(s, p) return (s:find(p)) ~= nil end return m("-", "[%.-_]"), m(".", "[%.-_]"), m("_", "[%.-_]"), m("A", "[%.-_]"), m("0", "[%.-_]"), m("-", "[%--x]"), m("a", "[%--x]"), m("b", "[%a-z]") , m("-", "[%a-]"), m("+", "[%+-%.]")`, "true|true|true|false|false|true|false|true|true|true", nil},
 	// seventh batch
 	{"C15", "string-position-minus-2^63", `return ("abc"):sub(-2^63), ("abc"):sub(-math.huge), (("abc"):find("b", -2^63)), (("abc"):byte(-2^63)), ("abc"):sub(-2^63, -2^63), ("abc"):byte(-2^63, -1)`, "abc|abc|2|nil||97|98|99", nil},
 	{"C15", "random-argument-count", `math.randomseed(1) local a = math.random(1, 2) return pcall(math.random, 1, 2, 3), a >= 1 and a <= 2, pcall(math.random, 2, 1)`, "false|true|false", nil},
